@@ -59,7 +59,7 @@ Record staking := {
   last_pow : gmap Z Z;              (* LastValidatorPower *)
   last_total : Z;                   (* LastTotalPower *)
   dels : gmap Z Z;                  (* self-delegation shares by operator id *)
-  ubq : list (Z * Z * list Z);      (* unbonding validator queue: (time, height, operator ids), key order *)
+  ubq : gmap (Z * Z) (list Z);      (* unbonding validator queue: (completion time, height) -> operator ids *)
   params : sparams
 }.
 
@@ -125,7 +125,7 @@ Definition st_last_total (s : staking) (t : Z) : staking :=
   {| vals := vals s; by_cons := by_cons s; pidx := pidx s; last_pow := last_pow s; last_total := t; dels := dels s; ubq := ubq s; params := params s |}.
 Definition st_dels (s : staking) (m : gmap Z Z) : staking :=
   {| vals := vals s; by_cons := by_cons s; pidx := pidx s; last_pow := last_pow s; last_total := last_total s; dels := m; ubq := ubq s; params := params s |}.
-Definition st_ubq (s : staking) (q : list (Z * Z * list Z)) : staking :=
+Definition st_ubq (s : staking) (q : gmap (Z * Z) (list Z)) : staking :=
   {| vals := vals s; by_cons := by_cons s; pidx := pidx s; last_pow := last_pow s; last_total := last_total s; dels := dels s; ubq := q; params := params s |}.
 Definition st_params (s : staking) (p : sparams) : staking :=
   {| vals := vals s; by_cons := by_cons s; pidx := pidx s; last_pow := last_pow s; last_total := last_total s; dels := dels s; ubq := ubq s; params := p |}.
